@@ -212,5 +212,19 @@ TEXTS = {
                  "pub(crate) and are not exercised on the real code by this check."),
         "technique": "Coq proof (string-level parser inversion, refinement of a state machine to a history specification by invariant) + refutation witnesses + extracted-model differential testing incl. exhaustive short version texts",
     },
+    "C05": {
+        "text": ("Coq theorems over the builder model with a lockfile (stage B1.5), for every world and lockfile: every "
+                 "loader call for a specifier the lockfile knows presents that checksum (invariant over the whole build), "
+                 "rejected content becomes an integrity error after at most one cache-bypassing retry, a checksummed URL "
+                 "that redirects is rejected, existing entries are never overwritten and new ones recorded once. The "
+                 "real builder's loader calls (with presented checksums and cache settings) and locker calls must equal "
+                 "the model's on thousands of worlds with matching/mismatching/partial lockfiles and tampered Reload "
+                 "content; the real observation is also judged by an extracted procedure. 'Recorded faithfully' is "
+                 "refuted (F-C05a: the hash of the decoded text is recorded; confirmed by building twice on the real "
+                 "code). Partial: the registry half (manifest and package-file checksums) is not modelled yet."),
+        "design_ref": "DESIGN.md section 5 C05, section 11",
+        "note": "Trusted: as C01; SHA-256 values are interned tags (equal tag <=> equal hash string computed by the real LoaderChecksum::gen).",
+        "technique": "Coq invariant proof over the builder model with a lockfile + differential testing of loader/locker call logs + real two-build self-consistency check",
+    },
 }
 NOT_YET = {}
